@@ -1137,10 +1137,14 @@ void execute_assignment(StatementExecutor *executor, Interpreter &interpreter,
     } else if (node->left &&
                node->left->node_type == ASTNodeType::AST_MEMBER_ACCESS) {
         // メンバアクセスへの代入 (obj.member = value)
+        AssignmentHelpers::check_member_pointer_const_conversion(
+            interpreter, node->left.get(), node->right.get());
         executor->execute_member_assignment(node);
     } else if (node->left &&
                node->left->node_type == ASTNodeType::AST_ARROW_ACCESS) {
         // アロー演算子アクセスへの代入 (ptr->member = value)
+        AssignmentHelpers::check_member_pointer_const_conversion(
+            interpreter, node->left.get(), node->right.get());
         executor->execute_arrow_assignment(node);
     } else {
         // 通常の変数代入
